@@ -175,7 +175,7 @@ def generate(ctx):
     # step sizes and radii over many more decades (dyadic scalings keep the exact model cheap)
     for K, eta, radius in ([(2, 2.0 ** -30, 1.0), (3, -2.0 ** 20, 1.0), (2, 1.0, 2.0 ** -10), (2, -1e6, 2.0 ** 10)] if quick else
                            [(2, 2.0 ** -30, 1.0), (3, -2.0 ** 20, 1.0), (2, 1.0, 2.0 ** -10), (2, -1e6, 2.0 ** 10), (3, 1e-6, 1.0), (5, 2.0 ** 30, 1.0),
-                            (3, -2.0 ** -30, 2.0 ** 20), (5, 2.0 ** 10, 2.0 ** -20), (1, 2.0 ** 30, 1.0), (4, 1e6, 1.0)]):
+                            (3, -2.0 ** -30, 2.0 ** 20), (5, 2.0 ** 10, 2.0 ** -20), (1, 2.0 ** 20, 1.0), (4, 1e6, 1.0)]):     # K = 1 with eta = 2^30 makes I - HG exactly singular in float64 (LinAlgError in numpy itself): not an evaluable case
         cfg = {'b': _dyadic_boundaries(rng, K).tolist(), 'tref': (rng.integers(200 * 4, 300 * 4, size=K).astype(float) / 4).tolist(),
                'R': 287.0, 'kappa': 0.25, 'radius': radius}
         ctx.count('decades: eta=%g radius=%g' % (eta, radius))
@@ -357,6 +357,21 @@ def _absmm(A, B):
     return np.abs(A) @ np.abs(B)
 
 
+def _ninf(A):
+    """infinity norm per total wavenumber: shape (l, 1, 1)"""
+    return np.abs(A).sum(axis=-1).max(axis=-1)[:, None, None]
+
+
+def _nw(*mats):
+    """NORMWISE product of the factors (per total wavenumber). np.linalg.inv (LU with partial pivoting) is backward stable
+    normwise, not componentwise: for the badly row-scaled matrices of extreme non-dimensional radii (cond ~ 1e13, thorough
+    tier) its residual is ~ 0.1 eps ||X|| ||M|| although |X||M| is ~ 1e3 (false alarm of the thorough tier on the unchanged
+    tree; DESIGN 9.7). Bounds therefore add 64 eps (= 2^-46) times the normwise product to 2^-36 times the componentwise one."""
+    out = _ninf(mats[0])
+    for m_ in mats[1:]: out = out * _ninf(m_)
+    return out
+
+
 # ---------------------------------------------------------------------------
 # runners
 # ---------------------------------------------------------------------------
@@ -426,7 +441,7 @@ def r_matrix(ctx, a):
     for name, X, Y in (('Minv*M = I (full matrix)', Minv, Mx), ('M*Minv = I (full matrix)', Mx, Minv),
                        ('A*(I-GH) = I', A, S1), ('B*(I-HG) = I', B, S2)):
         res = np.abs(np.einsum('lij,ljk->lik', X, Y) - np.eye(Y.shape[-1]))
-        bound = 2.0 ** -36 * _absmm(X, Y).max(axis=(1, 2), keepdims=True)
+        bound = 2.0 ** -36 * _absmm(X, Y).max(axis=(1, 2), keepdims=True) + 2.0 ** -46 * _nw(X, Y)
         ctx.table_obligation('H_inv: ' + name, bool((res <= bound).all()),
                              {'eta': eta, 'max_residual': float(res.max()), 'bound': float(bound.min())})
     ctx.table_obligation('laplacian_eigenvalues <= 0', bool((lam <= 0).all()))
@@ -475,10 +490,10 @@ def r_solve(ctx, a):
         sc2 = SLOP * float(np.einsum('lij,jml->iml', absL, 2.5 * np.abs(x) + 0.75 * np.abs(_stk(st2))).max()) + 1e-300
         ctx.oracle_close(f'implicit_terms is linear ({name})', lhs, rhs, scale=sc2)
     # --- implicit_inverse: three methods on y = x - eta*L(x)
-    sc_res = SLOP * float(np.einsum('lij,jml->iml', _absmm(Minv, Mx), np.abs(x)).max()) + 1e-300
+    sc_res = SLOP * float(np.einsum('lij,jml->iml', _absmm(Minv, Mx), np.abs(x)).max()) + 2.0 ** -10 * float(_nw(Minv, Mx).max() * np.abs(x).max()) + 1e-300
     absMb = np.abs(Mx)
     Dinv = np.zeros_like(Mx); Dinv[:, :K, :K] = A; Dinv[:, K:, K:] = B
-    sc_blk = SLOP * float(np.einsum('lij,jml->iml', _absmm(Dinv, absMb) @ np.abs(Mx), np.abs(x)).max()) + 1e-300
+    sc_blk = SLOP * float(np.einsum('lij,jml->iml', _absmm(Dinv, absMb) @ np.abs(Mx), np.abs(x)).max()) + 2.0 ** -10 * float(_nw(Dinv, Mx, Mx).max() * np.abs(x).max()) + 1e-300
     results = {}
     for lname, Lx in (('dense', terms['dense']), ('sparse', terms['sparse'])):
         y = st - eta * Lx
@@ -502,7 +517,8 @@ def r_solve(ctx, a):
     # forward error of an LU-computed inverse X of M: |X - M^-1| <~ eps |X||M||X| (it carries the condition number)
     Sd = np.zeros_like(Mx); Sd[:, :K, :K] = S1; Sd[:, K:, K:] = S2
     sc_any = SLOP * float(max(np.einsum('lij,jml->iml', _absmm(_absmm(Minv, Mx), Minv), np.abs(x)).max(),
-                              np.einsum('lij,jml->iml', _absmm(_absmm(_absmm(Dinv, Sd), Dinv), absMb), np.abs(x)).max())) + 1e-300
+                              np.einsum('lij,jml->iml', _absmm(_absmm(_absmm(Dinv, Sd), Dinv), absMb), np.abs(x)).max())) \
+        + 2.0 ** -10 * float(max(_nw(Minv, Mx, Minv).max(), _nw(Dinv, Sd, Dinv, Mx).max()) * np.abs(x).max()) + 1e-300
     anyres = [_stk(pd.implicit_inverse(st, eta, meth)) for meth in ('split', 'stacked', 'blockwise')]
     ctx.oracle_close('solve strategies agree on arbitrary states: split = stacked', anyres[0], anyres[1], scale=sc_any)
     ctx.oracle_close('solve strategies agree on arbitrary states: split = blockwise', anyres[0], anyres[2], scale=sc_any)
@@ -523,7 +539,7 @@ def r_wrappers(ctx, a):
     Mneg, Minvneg, *_ = _inverses(p, -eta)
     absL = np.abs(Mneg - np.eye(n)) / abs(eta) if eta else np.abs(_inverses(p, 1.0)[0] - np.eye(n))
     sc_L = SLOP * float(np.einsum('lij,jml->iml', absL, np.abs(x)).max()) + 1e-300
-    sc_res = SLOP * float(np.einsum('lij,jml->iml', _absmm(Minvneg, Mneg), np.abs(x)).max()) + 1e-300
+    sc_res = SLOP * float(np.einsum('lij,jml->iml', _absmm(Minvneg, Mneg), np.abs(x)).max()) + 2.0 ** -10 * float(_nw(Minvneg, Mneg).max() * np.abs(x).max()) + 1e-300
     tr = ti.TimeReversedImExODE(p)
     t = tr.implicit_terms(st)
     _model_cols(ctx, 'TimeReversedImExODE.implicit_terms', 7, [K, 0], a, p, eta, x, _stk(t), cols, [], sc_L)
@@ -534,7 +550,7 @@ def r_wrappers(ctx, a):
         ctx.corr('matrix inverted by the time-reversed solve', Mneg[l], ctx.model.call(9, [K], _cfg_arrs(a, eta, lam[l])),
                  scale=float(np.abs(Mneg[l]).max()))
     res = np.abs(np.einsum('lij,ljk->lik', Minvneg, Mneg) - np.eye(n))
-    bound = 2.0 ** -36 * _absmm(Minvneg, Mneg).max(axis=(1, 2), keepdims=True)
+    bound = 2.0 ** -36 * _absmm(Minvneg, Mneg).max(axis=(1, 2), keepdims=True) + 2.0 ** -46 * _nw(Minvneg, Mneg)
     ctx.table_obligation('H_inv: Minv*M = I (full matrix)', bool((res <= bound).all()),
                          {'eta': -eta, 'max_residual': float(res.max())})
     ctx.oracle_close('time-reversed: implicit_inverse(x - eta*implicit_terms(x), eta) = x', _stk(inv), x, scale=sc_res)
@@ -772,9 +788,9 @@ def r_big(ctx, a):
     Mx, Minv, S1, A, S2, B = _inverses(pd, eta)
     ctx.oracle_close('many levels: implicit matrix @ x = x - eta*implicit_terms(x)', np.einsum('lij,jml->iml', Mx, x), x - eta * refL,
                      scale=float(np.abs(x).max() + abs(eta) * sc_L))
-    sc_res = SLOP * float(np.einsum('lij,jml->iml', _absmm(Minv, Mx), np.abs(x)).max()) + 1e-300
+    sc_res = SLOP * float(np.einsum('lij,jml->iml', _absmm(Minv, Mx), np.abs(x)).max()) + 2.0 ** -10 * float(_nw(Minv, Mx).max() * np.abs(x).max()) + 1e-300
     Dinv = np.zeros_like(Mx); Dinv[:, :K, :K] = A; Dinv[:, K:, K:] = B
-    sc_blk = SLOP * float(np.einsum('lij,jml->iml', _absmm(Dinv, np.abs(Mx)) @ np.abs(Mx), np.abs(x)).max()) + 1e-300
+    sc_blk = SLOP * float(np.einsum('lij,jml->iml', _absmm(Dinv, np.abs(Mx)) @ np.abs(Mx), np.abs(x)).max()) + 2.0 ** -10 * float(_nw(Dinv, Mx, Mx).max() * np.abs(x).max()) + 1e-300
     for nm in ('dense', 'sparse'):
         y = st - eta * terms[nm]
         for me in ('split', 'stacked', 'blockwise'):
@@ -782,7 +798,7 @@ def r_big(ctx, a):
                              _stk(pd.implicit_inverse(y, eta, me)), x, scale=sc_blk if me == 'blockwise' else sc_res)
     for name, X, Y in (('Minv*M = I (full matrix)', Minv, Mx), ('A*(I-GH) = I', A, S1), ('B*(I-HG) = I', B, S2)):
         res = np.abs(X @ Y - np.eye(Y.shape[-1]))
-        bound = 2.0 ** -36 * _absmm(X, Y).max(axis=(1, 2), keepdims=True)
+        bound = 2.0 ** -36 * _absmm(X, Y).max(axis=(1, 2), keepdims=True) + 2.0 ** -46 * _nw(X, Y)
         ctx.table_obligation('H_inv: ' + name, bool((res <= bound).all()), {'K': K, 'max_residual': float(res.max())})
 
 
